@@ -8,6 +8,7 @@
   The NULL-buffer size query is `size = 0` with `mem = #[]`.
 -/
 import Binson.Lemmas.ToStringLemmas
+import Binson.Lemmas.VerifyValid
 import Binson.Props.C14
 namespace Binson
 
@@ -156,5 +157,72 @@ example (F : Fmts) :
   refine ⟨this.1, this.2.1, this.2.2.2.1, ?_⟩
   rw [this.2.2.2.2.2]
   decide
+
+theorem toString'_eq (F : Fmts) (p : Parser) (mem : Option (Array UInt8)) (size : Nat) :
+    toString' F p mem size =
+      (if (verify p).2.1 && !(toStringFold F p.buf (ts0 (mem.getD #[]) (if mem.isNone then 0 else size)) (verify p).2.2).full then
+        ((verify p).1, true, (toStringFold F p.buf (ts0 (mem.getD #[]) (if mem.isNone then 0 else size)) (verify p).2.2).used,
+          (toStringFold F p.buf (ts0 (mem.getD #[]) (if mem.isNone then 0 else size)) (verify p).2.2).mem,
+          (toStringFold F p.buf (ts0 (mem.getD #[]) (if mem.isNone then 0 else size)) (verify p).2.2).fault)
+      else
+        ((verify p).1, false, (toStringFold F p.buf (ts0 (mem.getD #[]) (if mem.isNone then 0 else size)) (verify p).2.2).used + 1,
+          (toStringFold F p.buf (ts0 (mem.getD #[]) (if mem.isNone then 0 else size)) (verify p).2.2).mem,
+          (toStringFold F p.buf (ts0 (mem.getD #[]) (if mem.isNone then 0 else size)) (verify p).2.2).fault)) := rfl
+
+/-- C13, the size protocol on valid documents, end to end (init + `binson_parser_to_string` of the
+    model, from any allocated parser object): with a NULL or too small buffer the call returns false
+    and reports `text length + 1`, the same number for every capacity; with a buffer of at least that
+    size it returns true, stores the text followed by NUL and reports the text length. -/
+theorem to_string_protocol (F : Fmts) (g : Parser) (ha : Alloc g) (hmd : g.maxDepth ≤ 255) (root : Root) (v : Value)
+    (hwf : wfDoc root g.maxDepth v = true) (hsz : (encode v).length < 2 ^ 63)
+    (mem : Option (Array UInt8)) (size : Nat) (h : ∀ m, mem = some m → size ≤ m.size) (hs : size < 2 ^ 63) :
+    let p := (init g (encode v).toArray (rootNum root)).1
+    let n := (render F v).length
+    let r := toString' F p mem size
+    ((mem = none ∨ size ≤ n) → r.2.1 = false ∧ r.2.2.1 = n + 1) ∧
+    (∀ m, mem = some m → n < size → r.2.1 = true ∧ r.2.2.1 = n ∧ r.2.2.2.1.toList.take (n + 1) = render F v ++ [0]) ∧
+    r.2.2.2.2 = false := by
+  intro p n r
+  obtain ⟨_, hF, hvt, hvv⟩ := verify_wellformed g ha hmd root v hwf hsz
+  have hbuf : p.buf = (encode v).toArray := hF.buf
+  have hfold : ∀ c0, toStringFold F p.buf c0 (verify p).2.2 = toStringFoldV F c0 (viewsOf 0 v) := by
+    intro c0; unfold toStringFold; rw [hbuf, hvv]
+  have hapi := to_string_api F p mem size h hs
+  have hvt' : (verify p).2.1 = true := hvt
+  refine ⟨?_, ?_, hapi.1⟩
+  · intro hcase
+    show (toString' F p mem size).2.1 = false ∧ (toString' F p mem size).2.2.1 = n + 1
+    rw [toString'_eq]
+    simp only [hfold, hvt', Bool.true_and]
+    cases mem with
+    | none =>
+      simp only [Option.isNone_none, if_true, Option.getD_none]
+      have ht := to_string_text F v #[] 0 (Nat.le_refl _) (by decide)
+      have hfull : (toStringFoldV F (ts0 #[] 0) (viewsOf 0 v)).full = true := ht.2.1.2 (Nat.zero_le _)
+      rw [hfull]; simp only [Bool.not_true, Bool.false_eq_true, if_false]
+      exact ⟨trivial, by rw [ht.1]⟩
+    | some m =>
+      simp only [Option.isNone_some, Bool.false_eq_true, if_false, Option.getD_some]
+      have hle : size ≤ n := by
+        rcases hcase with hc | hc
+        · cases hc
+        · exact hc
+      have ht := to_string_text F v m size (h m rfl) hs
+      have hfull : (toStringFoldV F (ts0 m size) (viewsOf 0 v)).full = true := ht.2.1.2 hle
+      rw [hfull]; simp only [Bool.not_true, Bool.false_eq_true, if_false]
+      exact ⟨trivial, by rw [ht.1]⟩
+  · intro m hm hlt
+    subst hm
+    show (toString' F p (some m) size).2.1 = true ∧ (toString' F p (some m) size).2.2.1 = n ∧
+      (toString' F p (some m) size).2.2.2.1.toList.take (n + 1) = render F v ++ [0]
+    rw [toString'_eq]
+    simp only [hfold, hvt', Bool.true_and, Option.isNone_some, Bool.false_eq_true, if_false, Option.getD_some]
+    have ht := to_string_text F v m size (h m rfl) hs
+    have hnf : (toStringFoldV F (ts0 m size) (viewsOf 0 v)).full = false := by
+      cases hf : (toStringFoldV F (ts0 m size) (viewsOf 0 v)).full
+      · rfl
+      · exact absurd hlt (Nat.not_lt.mpr (ht.2.1.1 hf))
+    rw [hnf]; simp only [Bool.not_false, if_true]
+    exact ⟨trivial, ht.1, ht.2.2.1 hlt⟩
 
 end Binson
